@@ -38,14 +38,14 @@ def plan(tier, seed):
         for k in range(nsh):
             specs.append(dict(kind='ite', order=o, g_lo=k * 256 // nsh,
                               g_hi=(k + 1) * 256 // nsh))
-    nh = 12 if tier == 'thorough' else 3
+    nh = 48 if tier == 'thorough' else 3
     for k in range(nh):
         specs.append(dict(kind='history', order=ORDERS[(seed + k) % 6],
                           sub=k, hashseed=k + 1))
-    nr = 32 if tier == 'thorough' else 8
+    nr = 128 if tier == 'thorough' else 8
     for k in range(nr):
         specs.append(dict(kind='random', sub=k, n=4 + k % 5,
-                          steps=1500 if tier == 'thorough' else 350,
+                          steps=4000 if tier == 'thorough' else 350,
                           auto=(k % 4 == 3), hashseed=k))
     meta = dict(
         rule=RULE,
